@@ -156,3 +156,8 @@ func verifMaxSizeOverflow() {
 		c.Close()
 	}
 }
+
+// The real delivery pump (shared with C03) also with a disk-backed channel (mem-queue-size 0): a
+// message that sits in the channel's disk queue is delivered when the consumer is ready - also
+// after the consumer went through a not-ready phase - and a timed-out message is delivered again.
+func VerifC01_PumpHistoryDelivers() { verifPumpHistory() }
